@@ -14,7 +14,17 @@ import (
 // Rng is splitmix64: every random choice of a run derives from one seed, so a disagreement replays exactly.
 type Rng struct{ s uint64 }
 
-func NewRng(seed uint64) *Rng { return &Rng{s: seed*0x9E3779B97F4A7C15 + 0x1234567} }
+// NewRng scrambles the seed first: the generator's state advances by a fixed increment, so nearby raw seeds would
+// give the same stream shifted by a few draws.
+func NewRng(seed uint64) *Rng {
+	z := seed + 0x1234567
+	z = (z ^ (z >> 30)) * 0xBF58476D1CE4E5B9
+	z = (z ^ (z >> 27)) * 0x94D049BB133111EB
+	z ^= z >> 31
+	z *= 0xD6E8FEB86659FD93
+	z ^= z >> 32
+	return &Rng{s: z}
+}
 
 func (r *Rng) U64() uint64 {
 	r.s += 0x9E3779B97F4A7C15
